@@ -111,7 +111,7 @@ def run_case(case, workdir):
     if len(set(names)) == len(names):
         import amr_kitchen.colander.cli as ccli
         from ..common import run_cli
-        for sel, limit in ((["all"], None), ([names[-1], UNKNOWN, names[0]] if len(names) > 1 else [names[0]], 0),
+        for sel, limit in ((["all"], None), (["all"], 0), ([names[-1], UNKNOWN, names[0]] if len(names) > 1 else [names[0]], 0),
                            ([names[0]], ref.nlevels - 1)):
             out = os.path.join(workdir, "out_cli")
             shutil_rmtree(out)
